@@ -137,7 +137,8 @@ impl Prop for C01 {
         let mut n_fe = 0;
         for (enc, frame) in frames {
             // growable buffer (+ default 8 KiB buffer when the payload fits)
-            n_fe += check_frontends::<VecK>(frame, p, i.extra, p.len() <= 8192, enc)?;
+            let with_default = p.len() <= 8192 && (p.len() >= 8100 || crate::util::fnv64(p) % 4 == 0);
+            n_fe += check_frontends::<VecK>(frame, p, i.extra, with_default, enc)?;
             // fixed buffer with capacity >= |p| (exactly |p| when the capacity set has it)
             n_fe += with_cap!(i.cap, K => check_frontends::<K>(frame, p, i.extra, false, enc))?;
         }
@@ -145,7 +146,7 @@ impl Prop for C01 {
         obs.class(len_class(p.len()));
         obs.class(tail_class(p));
         obs.class(if i.cap == p.len() { "cap:exact" } else { "cap:larger" });
-        if p.len() <= 8192 {
+        if p.len() <= 8192 && (p.len() >= 8100 || crate::util::fnv64(p) % 4 == 0) {
             obs.class("default-buffer:used");
         }
         obs.nontrivial_if(payload_nontrivial(p));
